@@ -53,6 +53,14 @@ def gen(rng: random.Random, tier: str):
                 if nm == "f3" and rng.random() < 0.35: vals = [-5] * len(vals)          # NaN for every item
                 ops.append({"op": "setfield", "name": nm, "vals": vals})
             else: ops.append({"op": kind})
+        if rng.random() < 0.12:
+            # directed: the same alternate vocabulary asked of a list and then of a copy whose identifiers / numbers were replaced
+            alt = rng.choice(alts); miss = rng.choice(["error", "negative"])
+            ops.append({"op": "numbers", "vocab": alt, "missing": "negative"})
+            if rng.random() < 0.6:
+                newids = rng.sample(universe + [999], min(cur, len(universe) + 1)); ops.append({"op": "copyids", "ids": newids}); cur = len(newids)
+            else: ops.append({"op": "copynums", "nums": [rng.randrange(len(v1)) for _ in range(cur)]})
+            ops.append({"op": "numbers", "vocab": alt, "missing": miss})
         yield {"mode": mode, "ids": ids, "nums": nums, "vocab": v1, "f1": f1, "ops": ops, "ordered": rng.random() < 0.5}
 
 def run(case: dict, lean: Lean) -> Outcome:
